@@ -155,6 +155,8 @@ def grep_forbidden():
 
 def build_harness(result):
     os.makedirs(os.path.join(HARNESS, 'bin'), exist_ok=True)
+    if os.path.exists(NVDRIVE):
+        os.remove(NVDRIVE)      # a failed build must not leave a stale binary behind
     rc, out = run(['go', 'build', '-tags', 'verif', '-o', NVDRIVE, './cmd/nvdrive'], cwd=HARNESS, env=GOENV, timeout=600)
     if rc != 0:
         result['harness_build_error'] = out[-3000:]
